@@ -426,6 +426,25 @@ class Interp:
             lambda f, call: excflow.is_noreturn_call(self.P, f, call))
         self.fresh_counter = 0
 
+    def _super_for_receiver(self, fi, name):
+        """The method `super().name` denotes inside `fi` when the receiver is
+        an instance of self.self_class (None when no receiver class is set,
+        or fi's class is not on its MRO)."""
+        cq = self.self_class
+        if cq is None or fi.cls is None or fi is not self.fi:
+            return None
+        mro = self.m.mro(cq)
+        own = getattr(fi.cls, "qualname", None)
+        if own not in mro or own == cq:
+            return None
+        for k in mro[mro.index(own) + 1:]:
+            c = self.m.classes.get(k)
+            if c is None:
+                return None
+            if name in c.methods:
+                return c.methods[name]
+        return None
+
     # ----------------------------------------------------------- enumeration
     def paths(self):
         """All consistent paths (depth-first over decision sequences)."""
@@ -1289,7 +1308,15 @@ class Interp:
             # super().m(a) is Base.m(self, a) for the next definition of m
             # along the MRO of the defining class
             cs = self.P.resolve_call(fi, node)
-            if len(cs) == 1 and cs[0].kind == "repo" \
+            nxt = self._super_for_receiver(fi, f.attr)
+            if nxt is not None:
+                # analysed for a particular receiver class (a mixin's method
+                # as a concrete subclass has it): the next definition along
+                # *that* class's MRO
+                ft = ("global", nxt.qualname)
+                args = (self.eval(ast.Name(id=fi.params[0], ctx=ast.Load()),
+                                  env),) + tuple(args)
+            elif len(cs) == 1 and cs[0].kind == "repo" \
                     and cs[0].how == "super":
                 ft = ("global", cs[0].fn.qualname)
                 args = (self.eval(ast.Name(id=fi.params[0], ctx=ast.Load()),
@@ -2175,14 +2202,21 @@ def is_unknown_helper(f):
     name = getattr(f, "name", None) or f.qualname.rsplit(".", 1)[-1]
     if not name.startswith("_") or name.startswith("__"):
         return False
+    if has_semantic_decorator(f):
+        return False
+    return name not in spec_vocabulary()
+
+
+def has_semantic_decorator(f):
+    """A decorator (a cache, a wrapper) changes what a call means: a function
+    that carries one -- other than staticmethod / classmethod -- is never
+    executed inline, its calls stay opaque."""
     node = getattr(f, "node", None)
     for d in getattr(node, "decorator_list", ()):
-        # a decorator (a cache, a wrapper) changes what a call means: such a
-        # helper stays an opaque call
         if getattr(d, "id", getattr(d, "attr", None)) not in (
                 "staticmethod", "classmethod"):
-            return False
-    return name not in spec_vocabulary()
+            return True
+    return False
 
 
 def carried_state_policy(fnode):
